@@ -399,6 +399,12 @@ func c18Run(ctx *runCtx) int {
 		{Spec: fmt.Sprintf("R=1 values=%d seed=%d", values/2, ctx.seed*10+3), Timeout: 15 * time.Minute, Race: true},
 		{Spec: fmt.Sprintf("R=2 values=%d seed=%d", values/2, ctx.seed*10+4), Timeout: 15 * time.Minute, Race: true},
 	}
+	if ctx.tier == "thorough" {
+		// more seeds: other key placements, other table roll-over points
+		for k := int64(0); k < 8; k++ {
+			batches = append(batches, batch{Spec: fmt.Sprintf("R=%d values=%d seed=%d", 1+k%2, values, ctx.seed*1000+10+k), Timeout: 10 * time.Minute})
+		}
+	}
 	runBatches(ctx, batches, 4, func(b batch, res batchResult, tail string) {
 		ctx.rep.Violate("c18|member-crashed-or-hung", fmt.Sprintf("child %s died (exit %d timeout=%v): %s", b.Spec, res.ExitCode, res.TimedOut, lastLines(tail, 12)), map[string]interface{}{"batch": b.Spec})
 	})
